@@ -1,6 +1,7 @@
 """C01 - serialise-then-parse round trip preserves every parsed program (T, V, SIB, ORD, G; DESIGN 5/C01)."""
 from ..gram import model as gm
 from . import common, tser, c14
+from ..report import Inconclusive
 from .c19 import get_ord
 
 PROP = "C01"
@@ -54,6 +55,7 @@ def run(rep, tier, prop="C01", extra_kinds=()):
     # writing a program leaves it as it was (a second serialisation, or an operation sharing the same list, gives the same text): shared with C13
     from . import c13
     common.guarded(rep, "C13.1", c13.c13_1, rep, common.eff(rep), ix)
+    common.guarded(rep, P + ".10", empty_program, rep, ix, P + ".10")
     common.guarded(rep, P + ".9", redeclaration, rep, ix, P + ".9")
     rep.rule(P + ".4", "script structure: metadata keywords, option and argument lists, statement lines and mode lists have the shapes the grammar prescribes; elements are separated by ', '", floor=8)
     common.guarded(rep, P + ".4", tser.structure, rep, P + ".4", ix, M)
@@ -91,6 +93,44 @@ def run(rep, tier, prop="C01", extra_kinds=()):
     rep.rule(P + ".6", "a register transform prints as the text of its expression", floor=1)
     rep.check(len(body) == 1 and u(body[0]) == "return self.func_str" and len(fs) == 1 and u(fs[0].value) == "str(%s)" % init.params[1], P + ".6", ix.site(rr),
               "RegRefTransform.__str__ returns str(expr)", key="regref str")
+
+
+def empty_program(rep, ix, R):
+    """a program without operations is a program: BlackbirdProgram defines __len__, so such an object is falsy and `if not prog` refuses it"""
+    import ast
+    from ..py.guards import Reach, AEval, stmt_of
+    from ..py.index import u, walk_shallow
+    rep.rule(R, "dump / dumps hand every program to serialize(): a test of the program object's truth value or length cannot stand in the way (a program with no operations has "
+                "length 0 and is falsy)", floor=2)
+    cls = ix.classes.get("program.BlackbirdProgram")
+    falsy = cls is not None and any(isinstance(n, ast.FunctionDef) and n.name in ("__len__", "__bool__") for n in cls.body)
+    for q in ("__init__.dumps", "__init__.dump"):
+        f = ix.func(q)
+        fn = f.node
+        p0 = f.params[0]
+        sers = [c for c in walk_shallow(fn) if isinstance(c, ast.Call) and isinstance(c.func, ast.Attribute) and c.func.attr == "serialize"]
+        if not sers:
+            # the serialiser may have been read into the function (normal form): then any statement that uses the program's content will do
+            sers = [c for c in walk_shallow(fn) if isinstance(c, ast.Attribute) and isinstance(c.value, ast.Name) and c.value.id == p0][:1]
+        if not sers:
+            # dump written in terms of dumps: the program is handed on (dumps is checked itself)
+            sers = [c for c in walk_shallow(fn) if isinstance(c, ast.Call) and isinstance(c.func, ast.Name) and c.func.id in ("dumps", "dump") and c.args
+                    and isinstance(c.args[0], ast.Name) and c.args[0].id == p0][:1]
+        if not sers:
+            raise Inconclusive("%s: use of the program (serialize) not recognised" % q)
+        if not falsy:
+            rep.ok(R, ix.site(f), "%s: the program class defines neither __len__ nor __bool__ (every program is truthy)" % q.split(".")[-1])
+            continue
+
+        def atom(node):
+            if isinstance(node, ast.Name) and node.id == p0:
+                return ()           # model of a program with no operations: falsy, length 0
+            return AEval.NO
+        # some serialize() call must be reachable for the empty program
+        r = any(Reach(fn, stmt_of(fn, c_)).may_reach(atom) for c_ in sers)
+        st = stmt_of(fn, sers[0])
+        rep.check(r, R, ix.site(f, st), "%s: a program with no operations reaches `%s`" % (q.split(".")[-1], " ".join(u(st).split())[:50]),
+                  "a test on the program's truth value / length leaves the function first", key="%s|empty" % q)
 
 
 def redeclaration(rep, ix, R):
